@@ -15,6 +15,8 @@ Fixpoint plain_stmt (st : stmt) : bool :=
   | SSet _ _ => false
   | SIf c b1 b2 => plain_cond c && plain_block b1 && plain_block b2
   | SWhile c b1 b2 => plain_cond c && plain_block b1 && plain_block b2
+  | STry b1 _ b2 b3 => plain_block b1 && plain_block b2 && plain_block b3
+  | SWith _ b1 => plain_block b1
   | _ => true
   end
 with plain_block (b : block) : bool :=
@@ -175,6 +177,23 @@ Proof.
   - destruct (C sl) as [sl' [R Po]]; [discriminate|]. exists sl'. split; [apply run_one; exact R | exact Po].
 Qed.
 
+
+Lemma bo_normal o : bo o = ONormal <-> o = ONormal.
+Proof. destruct o; simpl; split; congruence. Qed.
+
+Lemma post_u_mono f k o u u' sa sb : (u = true -> u' = true) -> post f k o u sa sb -> post f k o u' sa sb.
+Proof. intros M [A1 [A2 A3]]. split; [|split; assumption]. intros E. destruct (A1 E) as [X Y]. split; [exact X | apply M, Y]. Qed.
+
+Lemma post_then_normal f k k' o u u' sa sb sc :
+  k <= k' -> post f k o u sa sb -> post f k' ONormal u' sb sc -> post f k o u sa sc.
+Proof.
+  intros L [A1 [A2 A3]] [_ [B2 B3]]. assert (N : ONormal <> OBrk) by discriminate.
+  split; [|split].
+  - intros E. destruct (A1 E) as [X Y]. split; [rewrite (B2 N); exact X | exact Y].
+  - intros E. rewrite (B2 N). apply A2, E.
+  - intros h Oh Nf. rewrite (B3 h); [apply A3; assumption | intros j Hj; apply Oh; lia | exact Nf].
+Qed.
+
 Theorem brk_correct_all :
   (forall st s d tr o s' d', run_stmt st s d tr o s' d' -> ok_stmt st s d tr o s' d') /\
   (forall b s d tr o s' d', run_block b s d tr o s' d' -> ok_block b s d tr o s' d').
@@ -277,6 +296,49 @@ Proof.
         + eapply RWhileRet; [exact Ec | exact Rb].
       - split; [discriminate|]. split; [intros _; exact Kf | intros h Oh Nf; apply Kh; assumption]. }
     split; [apply from_loop_claim; assumption | exact LC].
+  - (* with *)
+    intros l body s d tr o s' d' _ IHb P f k Of. split; [|exact I]. intros sl.
+    simpl in P. destruct (IHb P f k Of sl) as [sl' [R Po]].
+    simpl. destruct (brk_block f k body) as [[body' k1] u1] eqn:E1. simpl in *.
+    exists sl'. split; [apply run_one; apply RWith; exact R | exact Po].
+  - (* try: body completes, else clause, finally *)
+    intros body hs orelse final s d tr1 s1 d1 tr2 o2 s2 d2 tr3 s3 d3 _ IHb _ IHo _ IHf P f k Of. split; [|exact I]. intros sl.
+    simpl in P. apply andb_true_iff in P; destruct P as [P P3]. apply andb_true_iff in P; destruct P as [P1 P2].
+    simpl.
+    destruct (brk_block f k body) as [[body' k1] u1] eqn:E1.
+    destruct (brk_blocks f k1 hs) as [[hs' k2] u2] eqn:E2.
+    destruct (brk_block f k2 orelse) as [[orelse' k3] u3] eqn:E3.
+    destruct (brk_block f k3 final) as [[final' k4] u4] eqn:E4.
+    assert (L1 : k <= k1) by (pose proof (proj1 (proj2 brk_mono3) body f k) as X; rewrite E1 in X; exact X).
+    assert (L2 : k1 <= k2) by (pose proof (proj2 (proj2 brk_mono3) hs f k1) as X; rewrite E2 in X; exact X).
+    assert (L3 : k2 <= k3) by (pose proof (proj1 (proj2 brk_mono3) orelse f k2) as X; rewrite E3 in X; exact X).
+    destruct (IHb P1 f k Of sl) as [sl1 [R1 Po1]]. rewrite E1 in R1, Po1; simpl in R1, Po1.
+    assert (O2 : outside k2 f) by (eapply outside_mono; [|exact Of]; lia).
+    destruct (IHo P2 f k2 O2 sl1) as [sl2 [R2 Po2]]. rewrite E3 in R2, Po2; simpl in R2, Po2.
+    assert (O3 : outside k3 f) by (eapply outside_mono; [|exact Of]; lia).
+    destruct (IHf P3 f k3 O3 sl2) as [sl3 [R3 Po3]]. rewrite E4 in R3, Po3; simpl in R3, Po3.
+    exists sl3. simpl. split.
+    + apply run_one. eapply RTryN; eassumption.
+    + eapply post_u_mono; [|eapply post_then_normal; [|eapply post_trans; [|exact Po1|exact Po2]|exact Po3]]; try lia.
+      intros H. apply orb_true_iff in H. destruct H as [->| ->]; rewrite ?orb_true_r; reflexivity.
+  - (* try: body jumps, finally *)
+    intros body hs orelse final s d tr1 ob s1 d1 tr3 s3 d3 _ IHb Nb _ IHf P f k Of. split; [|exact I]. intros sl.
+    simpl in P. apply andb_true_iff in P; destruct P as [P P3]. apply andb_true_iff in P; destruct P as [P1 P2].
+    simpl.
+    destruct (brk_block f k body) as [[body' k1] u1] eqn:E1.
+    destruct (brk_blocks f k1 hs) as [[hs' k2] u2] eqn:E2.
+    destruct (brk_block f k2 orelse) as [[orelse' k3] u3] eqn:E3.
+    destruct (brk_block f k3 final) as [[final' k4] u4] eqn:E4.
+    assert (L1 : k <= k1) by (pose proof (proj1 (proj2 brk_mono3) body f k) as X; rewrite E1 in X; exact X).
+    assert (L2 : k1 <= k2) by (pose proof (proj2 (proj2 brk_mono3) hs f k1) as X; rewrite E2 in X; exact X).
+    assert (L3 : k2 <= k3) by (pose proof (proj1 (proj2 brk_mono3) orelse f k2) as X; rewrite E3 in X; exact X).
+    destruct (IHb P1 f k Of sl) as [sl1 [R1 Po1]]. rewrite E1 in R1, Po1; simpl in R1, Po1.
+    assert (O3 : outside k3 f) by (eapply outside_mono; [|exact Of]; lia).
+    destruct (IHf P3 f k3 O3 sl1) as [sl3 [R3 Po3]]. rewrite E4 in R3, Po3; simpl in R3, Po3.
+    exists sl3. simpl. split.
+    + apply run_one. eapply RTryJ; [exact R1 | intros E; apply Nb; apply (proj1 (bo_normal ob)); exact E | exact R3].
+    + eapply post_u_mono; [|eapply post_then_normal; [|exact Po1|exact Po3]]; try lia.
+      intros ->; reflexivity.
   - (* nil *) intros s d _ f k Of sl. exists sl. simpl. split; [constructor | apply post_refl; discriminate].
   - (* cons, first statement completes *)
     intros st r s d tr s1 d1 tr2 o2 s2 d2 _ IHs _ IHr P f k Of sl.
